@@ -188,6 +188,26 @@ SEEDS = {
            "a hunk line containing FF, VT, FS, U+0085, U+2028 ... : the file silently gets no stats"),
  'C18-f': ('C18', "DOM writer drops options the streaming writer does not accept with del on the dict it holds, which for preamble / change / file sections is section.options itself",
            "an unknown option on a preamble section, then to_bytes(): the option disappears from the tree"),
+ 'C04-g': ('C04', "reader keeps a stack of the containers' option dicts (the very objects it yields) instead of resolved encoding strings",
+           "a consumer that edits a yielded container record's options before asking for the next record"),
+ 'C10-g': ('C10', "the reader's valid-next-sections set and encoding stack become instance attributes set once in __init__",
+           "the same DiffXReader iterated a second time over the rewound stream"),
+ 'C11-g': ('C11', "the first header line is passed through strip_bom(header, 'utf-8')",
+           "EF BB BF immediately before the '#' of the first header"),
+ 'C12-g': ('C12', "a diff header whose only option is length takes a fast path that counts lines with content.count(b'\\n')",
+           "a length-only diff header over content with CRLF first / last lines and a bare LF in between, then an unknown option added to it"),
+ 'C14-g': ('C14', "logger.debug(...) after each hunk header decodes the header's context text as UTF-8 eagerly",
+           "a hunk header whose context holds a byte that is not valid UTF-8"),
+ 'C15-g': ('C15', "reader memoises encoded newlines per encoding in a table capped at 16 entries; strip_bom happens only on insertion",
+           "a 17th distinct encoding spelling in one file naming a BOM-emitting codec on a section with line_endings"),
+ 'C16-g': ('C16', "split_lines keeps a one-entry module-level cache and hands out the cached list itself for keep_ends=False",
+           "the caller edits the returned list, then splits equal data again"),
+ 'C17-g': ('C17', "reader tracks its own offset from 0 and undoes read-ahead with an absolute seek",
+           "a stream whose first bytes were consumed by the caller before the reader got it"),
+ 'C19-g': ('C19', "preamble sections compare their text after lstrip('\\ufeff')",
+           "two trees whose preambles differ only by a leading U+FEFF compare equal"),
+ 'C20-g': ('C20', "_end_section lookahead also matches '#diffx:' anywhere",
+           "section content containing the characters '#diffx:'"),
  'C14-c': ('C14', "num_processed_lines returns the line of the last finalised hunk instead of the loop position",
            "ignore_garbage=True with non-hunk lines after the last hunk, or no hunks at all"),
 }
